@@ -218,6 +218,7 @@ fn run(cfg: usize, w: &mut Tape, env: &EnvRef) -> RunResult {
         encapsulated: syn == Syntax::ExplicitLE,
         all_undefined: false,
         latin1: false,
+        utf8: false,
     };
     let mut model = restrict_to(&ds::gen_dataset(w, &gcfg), syn);
     let (strategy, lazy, name) = match cfg {
